@@ -129,6 +129,50 @@ Theorem C19_backlog_any_moment : forall P gfh ops o k h, in_domain (ops ++ [o]) 
 Proof. exact backlog_any_moment. Qed.
 Print Assumptions C19_backlog_any_moment.
 
+(* C19.6 — [moment_state] against the model's own rollback.  S2.Model's
+   [roll_back] cuts the filter chain (lowering the in-memory tip), cuts the
+   block chain and THEN appends the disconnected event, block by block, in
+   the statement order of rollBackToHeight; [roll_back_moments] is that same
+   function with the state before each event kept.  For a rollback applied in
+   any reachable state it stops exactly once per emitted event, and the k-th
+   stop has the block chain, filter chain, in-memory filter tip and events of
+   [moment_state] at moment k.  (Within a headers message the rollbacks start
+   from the stores as they were before the message — C19.1 and C19_no_phantom
+   — so this is the check of the derivation in Moments.v for disconnected
+   events; for connected events [moment_state] is the final state by
+   definition, as writeCFHeadersMsg commits before it announces.) *)
+Theorem C19_rollback_moments_refine : forall P gfh ops h k, in_domain ops ->
+  let s := reach P gfh ops in let s' := step P s (ORollback h) in
+  let tr := roll_back_moments (length (chain s)) h s in
+  length tr = length (op_events s s') /\
+  forall m, tr !! k = Some m ->
+    chain m = chain (moment_state s s' k) /\ fchain m = fchain (moment_state s s' k) /\
+    ftipVar m = ftipVar (moment_state s s' k) /\ events m = events (moment_state s s' k).
+Proof. exact rollback_moments_refine. Qed.
+Print Assumptions C19_rollback_moments_refine.
+
+(* C19.7 — a backlog request during which a read of the block header store
+   fails (the n-th FetchHeaderByHeight of the request, n >= 1; the loop reads
+   heights h+1 .. tip in order).  At every moment (between operations: k =
+   length evs, i.e. the state after o; inside an operation: k < length evs):
+   the answer is an ERROR exactly if the loop gets as far as the failing read
+   (0 < h < tip and n <= tip - h) and the fault-free answer of C19.5 otherwise;
+   so an answer without error is always the exact backlog of the moment's
+   committed chain — never a proper prefix of it. *)
+Theorem C19_backlog_fault_is_error : forall P gfh ops o k n h, in_domain (ops ++ [o]) ->
+  let s := reach P gfh ops in let s' := step P s o in
+  let evs := op_events s s' in
+  (k <= length evs)%nat -> 0 <= h ->
+  let cm := committed_at (committed_of s) (committed_of s') evs k in
+  notifs_fault_at_moment s s' k n h =
+    (if (0 <? h) && (h <? zlen cm - 1) && (1 <=? n) && (n <=? zlen cm - 1 - h) then None
+     else notifs_at_moment s s' k h) /\
+  (notifs_fault_at_moment s s' k n h = None \/
+   notifs_fault_at_moment s s' k n h =
+     Some (if h =? 0 then [] else moment_backlog cm h, zlen cm - 1)).
+Proof. exact backlog_fault_is_error. Qed.
+Print Assumptions C19_backlog_fault_is_error.
+
 (* Non-vacuity: a peer, two header batches and two filter-header batches
    (heights 1-2, then 3-4 of a chain of height 6); a 4-header branch forking
    at height 3 that removes block 4 (filter header committed) and blocks 5, 6
@@ -212,5 +256,17 @@ Example C19_moments_nonvacuous :
   replay [1; 2] (map conn_of [(3, 2)] ++ drop 3 (op_events s1 s2)) = Some [1; 2; 3] /\
   (* before the first event nothing has been rolled back; after the last one the state is s2 *)
   notifs_at_moment s1 s2 0 1 = Some ([(3, 2); (4, 3); (5, 4)], 4) /\
-  moment_state s1 s2 4 = s2.
+  moment_state s1 s2 4 = s2 /\
+  (* the model's rollback to height 2, stopped before each of its four events:
+     (block chain length, filter chain length, in-memory filter tip) *)
+  map (fun m => (zlen (chain m), zlen (fchain m), ftipVar m)) (roll_back_moments 7 2 s1) =
+    [(6, 5, 4); (5, 5, 4); (4, 4, 3); (3, 3, 2)] /\
+  (* a failing header-store read: after the batch (tip 4) a request for
+     height 1 reads heights 2, 3, 4; the 2nd read failing is an error, a 4th
+     read never happens; inside the reorganisation (blocked on the third
+     event, tip 3) a request for height 2 makes one read *)
+  notifs_fault_at_moment s0 s1 4 2 1 = None /\
+  notifs_fault_at_moment s0 s1 4 4 1 = Some ([(3, 2); (4, 3); (5, 4)], 4) /\
+  notifs_fault_at_moment s1 s2 2 1 2 = None /\
+  notifs_fault_at_moment s1 s2 2 2 2 = Some ([(4, 3)], 3).
 Proof. split; [vm_compute; reflexivity|]. vm_compute. repeat split; reflexivity. Qed.
